@@ -70,8 +70,17 @@ func counterRound(c *core.Case, tg target, round int, conns []*redisx.Conn, admi
 	keys := []string{fmt.Sprintf("ctr:%d:%d:a", c.Idx, round), fmt.Sprintf("ctr:%d:%d:b", c.Idx, round)}
 	initial := []int64{0, 0}
 	for i, k := range keys {
-		switch r.Intn(3) {
+		switch r.Intn(4) {
 		case 0: // absent counter: starts at 0
+		case 3: // absent because it was deleted: the engine holds a tombstone for the key
+			r1, e1 := admin.DoS("SET", k, "7")
+			r2, e2 := admin.DoS("DEL", k)
+			if e1 != nil || e2 != nil || r1.Kind != '+' || r2.Kind != ':' {
+				c.Inconclusive(fmt.Sprintf("round %d: SET+DEL of the counter failed: %v %v", round, e1, e2))
+				return
+			}
+			c.Count("counters_starting_deleted", 1)
+			continue
 		case 1:
 			initial[i] = int64(r.Intn(2000) - 1000)
 		default:
@@ -258,7 +267,27 @@ func keysOf(m map[string]bool) []string {
 func nxRound(c *core.Case, tg target, round int, conns []*redisx.Conn, admin *redisx.Conn) {
 	key := fmt.Sprintf("nx:%d:%d", c.Idx, round)
 	c.Count("evaluations", 1)
-	// the key has never been written; confirm absence through the gateway
+	// the key has never been written - or, every other round, was written and deleted (the
+	// engine then holds a tombstone), or written with a 1 ms TTL that has run out; confirm
+	// absence through the gateway
+	switch round % 4 {
+	case 1:
+		r1, e1 := admin.DoS("SET", key, "gone")
+		r2, e2 := admin.DoS("DEL", key)
+		if e1 != nil || e2 != nil || r1.Kind != '+' || r2.Kind != ':' {
+			c.Inconclusive(fmt.Sprintf("nx round %d: SET+DEL failed: %v %v", round, e1, e2))
+			return
+		}
+		c.Count("nx_rounds_on_deleted_key", 1)
+	case 3:
+		r1, e1 := admin.DoS("SET", key, "gone", "PX", "1")
+		if e1 != nil || r1.Kind != '+' {
+			c.Inconclusive(fmt.Sprintf("nx round %d: SET PX failed: %v", round, e1))
+			return
+		}
+		time.Sleep(1100 * time.Millisecond) // TTLs have second granularity in the engine
+		c.Count("nx_rounds_on_expired_key", 1)
+	}
 	rep, err := admin.DoS("EXISTS", key)
 	if err != nil || rep.Kind != ':' || rep.Int != 0 {
 		c.Inconclusive(fmt.Sprintf("nx round %d: key not absent beforehand: %v %s", round, err, rep.String()))
@@ -402,8 +431,8 @@ func init() {
 		ID:    "C30",
 		Level: "exploration",
 		Rule: "case = one fresh nokv-redis process (embedded backend; thorough: plus cases on a real local raft cluster: nokv pd + 3 x nokv serve + nokv-redis --raft-config) driven by 8-16 concurrent TCP connections for 6 rounds: " +
-			"counter rounds (every connection fires a seeded script of INCR/DECR/INCRBY/DECRBY, or INCR only, at two fresh counters with absent/small/large initial values; oracle: final GET == initial + sum of deltas of commands answered with an integer, error replies contribute nothing) and " +
-			"NX rounds (all connections send SET k v NX on a never-written key at once; oracle: at most one +OK); a round is non-trivial iff acknowledged commands of different connections really overlapped in time (send..reply intervals, measured); " +
+			"counter rounds (every connection fires a seeded script of INCR/DECR/INCRBY/DECRBY, or INCR only, at two fresh counters with absent/deleted (SET then DEL)/small/large initial values; oracle: final GET == initial + sum of deltas of commands answered with an integer, error replies contribute nothing) and " +
+			"NX rounds (all connections send SET k v NX at once on a key that is absent: never written, or - alternating - written and deleted, or written with a 1 ms TTL that has run out; oracle: at most one +OK); a round is non-trivial iff acknowledged commands of different connections really overlapped in time (send..reply intervals, measured); " +
 			"distinct = distinct (backend, connections, script shape, acknowledged counts, overlap count) tuples",
 		Assumptions: []string{
 			"per counter at most ~80 commands per round, below the engine's default hot-key write throttle; throttled or conflicting commands reply an error and contribute no delta",
